@@ -22,6 +22,7 @@
 #include <sys/mman.h>
 #include <sys/wait.h>
 #include <sys/resource.h>
+#include <sys/syscall.h>
 #include "mythmc.h"
 
 #define MAXPROG   4096
@@ -64,6 +65,8 @@ typedef struct {
   long nout;
   uint64_t outtab[OUTTAB];
   long pending_at_depth[MV_MAXDEV + 1];   /* jobs queued or running, per depth */
+  volatile uint8_t ref_ready[MAXPROG];     /* reference output of the program computed (differential harnesses) */
+  char ref[MAXPROG][MV_REF_SZ];
   char sample_obs[4][256];
   int nsample;
   job_t pool[POOL];
@@ -78,11 +81,26 @@ static double g_run_timeout = 10.0;
 
 static double now(void) { struct timespec ts; clock_gettime(CLOCK_MONOTONIC, &ts); return ts.tv_sec + ts.tv_nsec * 1e-9; }
 
-static void lock(void) { while (__atomic_exchange_n(&C->lock, 1, __ATOMIC_ACQUIRE)) sched_yield(); }
+static void lock(void) { while (__atomic_exchange_n(&C->lock, 1, __ATOMIC_ACQUIRE)) syscall(SYS_sched_yield); }
 static void unlock(void) { __atomic_store_n(&C->lock, 0, __ATOMIC_RELEASE); }
 
 /* ------------------------------------------------------------------ one execution */
+const char * mv_reference;   /* valid in the child: reference output of the current program */
+static void ensure_reference(int prog) {
+  if (!mc_harness.reference || !C || C->ref_ready[prog]) return;
+  pid_t pid = fork();
+  if (pid == 0) {
+    int fd = open("/dev/null", O_WRONLY); if (fd >= 0) { dup2(fd, 2); dup2(fd, 1); close(fd); }
+    mc_harness.reference(g_tier, prog, C->ref[prog], MV_REF_SZ);
+    _exit(0);
+  }
+  int st; waitpid(pid, &st, 0);
+  if (!WIFEXITED(st) || WEXITSTATUS(st)) snprintf(C->ref[prog], MV_REF_SZ, "(reference run failed: status %x)", st);
+  C->ref_ready[prog] = 1;
+}
+
 static int execute(mv_shared_t * sh, int prog, int W, int ndev, const mv_dev_t * dev, double timeout, int trace) {
+  ensure_reference(prog);
   /* reset header (not the big arrays) */
   memset(sh, 0, offsetof(mv_shared_t, prefix_hash));
   sh->tier = g_tier; sh->prog = prog; sh->nworkers = W; sh->ndev = ndev;
@@ -100,6 +118,7 @@ static int execute(mv_shared_t * sh, int prog, int W, int ndev, const mv_dev_t *
     struct rlimit rl = { (rlim_t)(timeout + 2), (rlim_t)(timeout + 3) }; setrlimit(RLIMIT_CPU, &rl);
     struct rlimit core = {0, 0}; setrlimit(RLIMIT_CORE, &core);
     mv_sh = sh;
+    mv_reference = C ? C->ref[prog] : NULL;
     mc_harness.run(g_tier, prog);
     sh->finished = 1;
     sh->verdict = MV_OK;
@@ -284,7 +303,7 @@ static void explorer_proc(int id) {
   for (;;) {
     int r = pop_job(&jb);
     if (r < 0) break;
-    if (r == 0) { usleep(300); continue; }
+    if (r == 0) { { struct timespec ts_ = {0, 300000}; syscall(SYS_nanosleep, &ts_, NULL); }; continue; }
     run_job(sh, &jb);
     lock(); C->inflight--; C->pending_at_depth[jb.ndev]--; unlock();
   }
@@ -350,6 +369,11 @@ int main(int argc, char ** argv) {
     else if (!strcmp(argv[i], "--prog") && i + 1 < argc) g_only_prog = atoi(argv[++i]);
     else if (!strcmp(argv[i], "--seed") && i + 1 < argc) g_seed = (unsigned)strtoul(argv[++i], NULL, 10);
     else if (!strcmp(argv[i], "--timeout") && i + 1 < argc) g_run_timeout = atof(argv[++i]);
+    else if (!strcmp(argv[i], "--reference") && i + 1 < argc) {
+      static char b[MV_REF_SZ]; int p = atoi(argv[++i]);
+      if (mc_harness.reference) mc_harness.reference(g_tier, p, b, sizeof b);
+      printf("reference[%d] = %s\n", p, b); return 0;
+    }
     else if (!strcmp(argv[i], "--list")) {
       int n = mc_harness.nprogs(g_tier);
       for (int p = 0; p < n; p++) { char d[256] = ""; int W, K; mc_harness.describe(g_tier, p, d, sizeof d); mc_harness.config(g_tier, p, &W, &K); printf("%d W=%d K=%d %s\n", p, W, K, d); }
@@ -360,6 +384,8 @@ int main(int argc, char ** argv) {
   g_t0 = now();
   sigset_t ss; sigemptyset(&ss); sigaddset(&ss, SIGCHLD); sigprocmask(SIG_BLOCK, &ss, NULL);
 
+  C = mmap(NULL, sizeof(ctl_t), PROT_READ | PROT_WRITE, MAP_SHARED | MAP_ANONYMOUS | MAP_NORESERVE, -1, 0);
+  if (C == MAP_FAILED) { perror("mmap"); return 2; }
   if (replay) {
     int tier, prog, W, ndev; mv_dev_t dev[MV_MAXDEV];
     if (parse_replay(replay, &tier, &prog, &W, &ndev, dev)) { fprintf(stderr, "cannot parse %s\n", replay); return 2; }
@@ -372,8 +398,6 @@ int main(int argc, char ** argv) {
     return sh->verdict == MV_OK ? 0 : 1;
   }
 
-  C = mmap(NULL, sizeof(ctl_t), PROT_READ | PROT_WRITE, MAP_SHARED | MAP_ANONYMOUS | MAP_NORESERVE, -1, 0);
-  if (C == MAP_FAILED) { perror("mmap"); return 2; }
   C->free_head = -1;
   for (int d = 0; d <= MV_MAXDEV; d++) C->head[d] = C->tail[d] = -1;
   int np = mc_harness.nprogs(g_tier);
